@@ -157,6 +157,8 @@ func c07GenQuery(rng *rand.Rand, w *bufio.Writer, idx string) {
 	from := 0
 	if rng.Intn(3) == 0 {
 		from = rng.Intn(6)
+	} else if rng.Intn(20) == 0 {
+		from = -1 - rng.Intn(3) // a negative offset reads from the start
 	}
 	limit := 0
 	if rng.Intn(2) == 0 {
@@ -354,7 +356,29 @@ func c07Gen(rng *rand.Rand, tier string, w *bufio.Writer) {
 			case r >= 66 && r < 78 && (bodies || c%5 == 0):
 				// the claim paths: patch one key / patch every expired record / shift by index
 				e := []string{"-", "-", "clear", strconv.FormatInt(c07TS(rng, 0), 10)}[rng.Intn(4)]
-				switch rng.Intn(5) {
+				switch rng.Intn(7) {
+				case 5:
+					// PatchTreasures with CreateIfNotExist
+					if k, okk := pick(); okk {
+						if !live[k] {
+							live[k] = true
+						}
+						delete(incSum, k)
+						fmt.Fprintf(w, "patchc %s %s\n", k, e)
+					}
+				case 6:
+					// ShiftByKeys: two or three names, existing or not
+					var ks []string
+					for j := 0; j < 2+rng.Intn(2); j++ {
+						k := fmt.Sprintf("k%02d", rng.Intn(nKeys))
+						ks = append(ks, k)
+						delete(live, k)
+						delete(incSum, k)
+						if persistent {
+							retired[k] = true
+						}
+					}
+					fmt.Fprintf(w, "shiftkeys %s\n", strings.Join(ks, ","))
 				case 0, 1:
 					fmt.Fprintf(w, "patch k%02d %s\n", rng.Intn(nKeys), e)
 				case 2, 3:
@@ -615,7 +639,7 @@ func c07Run(in *bufio.Scanner, w *bufio.Writer) {
 					select {
 					case r2 = <-second: // answered while the first reader is still inside the build
 						got = true
-					case <-time.After(60 * time.Millisecond): // it waits for the build: let the first go on
+					case <-time.After(HxScale(60 * time.Millisecond)): // it waits for the build: let the first go on
 					}
 					close(release)
 					r1 = <-first
@@ -642,7 +666,20 @@ func c07Run(in *bufio.Scanner, w *bufio.Writer) {
 					keys = append(keys, t.GetKey())
 				}
 				return "r " + strings.Join(keys, ",")
-			case (f[0] == "patch" && len(f) == 3) || (f[0] == "patchexp" && len(f) == 2):
+			case f[0] == "shiftkeys" && len(f) == 2:
+				if ok, err := rig.Zeus.GetHydra().IsExistSwamp(1, name.Load(swampName)); err != nil || !ok {
+					return "r "
+				}
+				resp, err := rig.GW.ShiftByKeys(ctx, &hydrapb.ShiftByKeysRequest{IslandID: 1, SwampName: swampName, Keys: strings.Split(f[1], ",")})
+				if err != nil || resp == nil {
+					return "r "
+				}
+				var keys []string
+				for _, t := range resp.GetTreasures() {
+					keys = append(keys, t.GetKey())
+				}
+				return "r " + strings.Join(keys, ",")
+			case (f[0] == "patch" && len(f) == 3) || (f[0] == "patchc" && len(f) == 3) || (f[0] == "patchexp" && len(f) == 2):
 				var meta *hydrapb.PatchMeta
 				switch e := f[len(f)-1]; e {
 				case "-":
@@ -658,15 +695,15 @@ func c07Run(in *bufio.Scanner, w *bufio.Writer) {
 					}
 				}
 				ops := []*hydrapb.PatchOp{{Op: hydrapb.PatchOp_INC, Path: "n", Value: c07MpInt64(1)}}
-				if ok, err := rig.Zeus.GetHydra().IsExistSwamp(1, name.Load(swampName)); err != nil || !ok {
+				if ok, err := rig.Zeus.GetHydra().IsExistSwamp(1, name.Load(swampName)); (err != nil || !ok) && f[0] != "patchc" {
 					// (PatchTreasures would summon an empty swamp into being; the case has nothing alive)
 					if f[0] == "patch" {
 						return "notfound"
 					}
 					return "r "
 				}
-				if f[0] == "patch" {
-					resp, err := rig.GW.PatchTreasures(ctx, &hydrapb.PatchTreasuresRequest{IslandID: 1, SwampName: swampName,
+				if f[0] == "patch" || f[0] == "patchc" {
+					resp, err := rig.GW.PatchTreasures(ctx, &hydrapb.PatchTreasuresRequest{IslandID: 1, SwampName: swampName, CreateIfNotExist: f[0] == "patchc",
 						Patches: []*hydrapb.TreasurePatch{{Key: f[1], Ops: ops, Meta: meta}}})
 					if err != nil {
 						return "err " + c07ErrClass(err)
@@ -677,6 +714,8 @@ func c07Run(in *bufio.Scanner, w *bufio.Writer) {
 					switch st := resp.GetResults()[0].GetStatus(); st {
 					case hydrapb.PatchResult_PATCHED:
 						return "patched"
+					case hydrapb.PatchResult_CREATED:
+						return "created"
 					case hydrapb.PatchResult_KEY_NOT_FOUND:
 						return "notfound"
 					case hydrapb.PatchResult_TYPE_MISMATCH:
@@ -767,7 +806,7 @@ func c07Run(in *bufio.Scanner, w *bufio.Writer) {
 				return "ok"
 			case f[0] == "q" && len(f) == 8:
 				it, ok := c07IndexType(f[1])
-				from, e1 := strconv.ParseInt(f[3], 10, 32)
+				from, e1 := strconv.ParseInt(f[3], 10, 32) // (may be negative: read from the start)
 				limit, e2 := strconv.ParseInt(f[4], 10, 32)
 				ft, ok1 := c07OptTS(f[5])
 				tt, ok2 := c07OptTS(f[6])
